@@ -22,6 +22,7 @@ def run(ctx):
     a_enqueue(ctx)
     b_snapshot(ctx)
     c_cache(ctx)
+    d_more(ctx)
 
 
 def _nodes_between(cfg, a, b):
@@ -207,3 +208,58 @@ def c_cache(ctx):
         ok = any(isinstance(n, ast.For) and re.sub(r"\s", "", src(n.iter)) == "zip(%s,%s)" % (a, b) and isinstance(n.target, ast.Tuple)
                  and any(isinstance(c, ast.Call) and src(c.func) == "self.set" and [src(x) for x in c.args] == [src(e) for e in n.target.elts] for c in ast.walk(n)) for n in ast.walk(f))
         ctx.check("C19.c.keys", CACHE, "EmbeddingsCache.set(list)", "zip pairing", ok, "texts and values are stored pairwise in order (zip)", line=f.lineno)
+
+
+def d_more(ctx):
+    # request ids are unique over the life of the index: _req_idx is only ever incremented
+    t = ctx.tree.ast(BASIC)
+    writes = []
+    for fn in functions(t):
+        for n in ast.walk(fn):
+            if isinstance(n, ast.Assign) and any(src(x) == "self._req_idx" for x in n.targets):
+                writes.append((fn, n))
+            if isinstance(n, ast.AugAssign) and src(n.target) == "self._req_idx":
+                writes.append((fn, n))
+    ctx.floor("C19.a.id-unique", BASIC, "writes of _req_idx", len(writes), 2)
+    for fn, n in writes:
+        ok = (fn.name == "__init__" and isinstance(n, ast.Assign)) or (isinstance(n, ast.AugAssign) and isinstance(n.op, ast.Add))
+        ctx.check("C19.a.id-unique", BASIC, qualname(fn), src(n), ok,
+                  "request ids only grow (initialised once, then += 1)" if ok else
+                  "`%s` resets the request id counter while results of an earlier batch may still be pending under the same ids: a request receives another text's vector" % src(n), line=n.lineno)
+    # the cache stores EVERY text unconditionally (the wrapper builds its result from a read-back)
+    tc = ctx.tree.ast(CACHE)
+    cls = find_class(tc, "EmbeddingsCache")
+    for f in [f for f in cls.body if isinstance(f, ast.FunctionDef) and f.name == "_" and len(f.args.args) == 3]:
+        cfg = CFG(f)
+        stores = [n for n in cfg.nodes if n.ast is not None and any(isinstance(c, ast.Call) and src(c.func) in ("self._cache_store.set", "self.set") for c in walk_no_nested(n.ast))]
+        rets = [n for n in cfg.nodes if n.kind == "stmt" and isinstance(n.ast, ast.Return)]
+        uncond = bool(stores) and not rets and all(cfg.must_pass(cfg.entry, cfg.exit, [s_]) or (s_.kind == "stmt" and any(isinstance(p_, ast.For) for p_ in _anc(s_.ast, f)) and
+                                                                                                  not any(isinstance(p_, ast.If) for p_ in _anc(s_.ast, f))) for s_ in stores)
+        ctx.check("C19.c.store-unconditional", CACHE, "EmbeddingsCache.set(%s)" % src(f.args.args[1].annotation), "unconditional store", uncond,
+                  "every text handed to set() is stored (the wrapper reads its results back from the cache, so a skipped text comes back as None)" if uncond else
+                  "set() skips some texts: the cache wrapper builds its result from a read-back of the cache, so those inputs get None instead of their embedding", line=f.lineno)
+    # a fresh cache object per call (no memoised instance shared between indexes)
+    fc = [f for f in cls.body if isinstance(f, ast.FunctionDef) and f.name in ("from_config", "from_dict")]
+    for f in fc:
+        rets = [r for r in ast.walk(f) if isinstance(r, ast.Return)]
+        ok = bool(rets) and all(isinstance(r.value, ast.Call) and src(r.value.func).startswith("cls") for r in rets)
+        ctx.check("C19.c.no-shared-instance", CACHE, "EmbeddingsCache.%s" % f.name, "returns a new object", ok,
+                  "a new cache object (and store) is created per call" if ok else "cache objects are memoised and shared between indexes", line=f.lineno)
+    mutable_cls = [a for a in cls.body if isinstance(a, (ast.Assign, ast.AnnAssign)) and isinstance(getattr(a, "value", None), (ast.Dict, ast.List, ast.Call))]
+    ctx.check("C19.c.no-shared-instance", CACHE, "EmbeddingsCache", "no class-level registry", not mutable_cls, "EmbeddingsCache has no class-level mutable state", line=cls.lineno)
+    # the key must identify the MODEL as well as the text (stores such as the filesystem one are shared by all indexes)
+    wrapper = [f for f in ast.walk(find_function(tc, "cache_embeddings")) if isinstance(f, ast.AsyncFunctionDef)][0]
+    model_in_key = any(re.search(r"embedding_model|embedding_engine|_model\b", src(c)) for c in ast.walk(wrapper)
+                       if isinstance(c, ast.Call) and src(c.func).split(".")[-1] in ("get", "set", "from_config", "generate_key"))
+    model_in_key = model_in_key or any("model" in a.arg for f in cls.body if isinstance(f, ast.FunctionDef) and f.name in ("_", "get", "set", "__init__") for a in f.args.args)
+    ctx.check("C19.c.key-identifies-model", CACHE, "cache_embeddings.%s" % wrapper.name, "cache key derivation", model_in_key,
+              "the cache key / store namespace depends on the embedding model" if model_in_key else
+              "the cache key is derived from the text alone, and stores (e.g. the default filesystem directory) are shared by all indexes: an index using another embedding model is served the first model's vectors",
+              line=wrapper.lineno)
+
+
+def _anc(node, stop):
+    p = getattr(node, "_parent", None)
+    while p is not None and p is not stop:
+        yield p
+        p = getattr(p, "_parent", None)
